@@ -92,9 +92,11 @@ struct Slot {
 	char text[1 << 16];
 };
 inline Slot *&slot_ptr() { static Slot *s = nullptr; return s; }
-inline void slot_set(const std::string &s) {
+inline std::string &slot_prefix() { static std::string p; return p; }
+inline void slot_set(const std::string &s0) {
 	Slot *sl = slot_ptr();
 	if(!sl) return;
+	std::string s = slot_prefix() + s0;
 	uint32_t n = s.size() < sizeof(sl->text) - 1 ? s.size() : sizeof(sl->text) - 1;
 	memcpy(sl->text, s.data(), n);
 	sl->text[n] = 0;
